@@ -240,6 +240,11 @@ func RunPlan(pr *Profile, p *Plan, keep bool) *Outcome {
 				fmt.Fprintln(os.Stderr, StackDump())
 			}
 		}
+		for _, lim := range []int{2000, 5000, 10000, 20000} {
+			if e.MaxInstantSteps > lim {
+				e.Probe(fmt.Sprintf("instant-steps>%d", lim))
+			}
+		}
 		out.Steps, out.FakeNS, out.Digest, out.NEv = e.Step, int64(e.Now()), e.Digest(), e.NEv
 		out.Stats = e.Stats
 		out.Trace = e.Trace
